@@ -98,7 +98,8 @@ class Machine(object):
             return {"kind": "gen_rsa_close", "bits": 1024, "e": rng.choice([3, 65537]), "seed": s, "gap": rng.choice([0, 2, 100, 10 ** 6, 1 << 200, 1 << 411, 1 << 412, 1 << 413]), "ops": []}
         if r < 0.12:
             return {"kind": "gen_dsa", "seed": s, "tape": rng.choice(["seeded", "zero_prefix", "ff_prefix", "period"]),
-                    "tail": rng.choice([None, None, "0", "1", "q-3", "q-2", "q-1", "q-1", "q", "q+1", "ff"]), "span": rng.choice([1, 2, 3]), "ops": []}
+                    "tail": rng.choice([None, None, "0", "1", "q-3", "q-2", "q-1", "q-1", "q", "q+1", "ff"]), "span": rng.choice([1, 2, 3]),
+                    "then": rng.choice([None, "g=2", "g=1", "g=p-1", "g=2g", "g=0", "q=2q", "p=p+2q"]), "ops": []}
         if r < 0.125 and tier == "thorough":
             return {"kind": "gen_elgamal", "seed": s, "bits": 256, "ops": []}
         if r < 0.30:
@@ -256,6 +257,24 @@ class Machine(object):
                 ctx.violate("generate/DSA/exception:%s" % type(e).__name__, "DSA.generate raised %r" % e, observed=repr(e), expected="key")
             self._judge(ctx, "DSA.generate", K.check_dsa(k2), " (private-value bytes on the tape set to %s)" % case["tail"])
             ctx.probe("dsa_private_value_engineered")
+        if case.get("then"):
+            # a history, not an input: the same process has just generated a key in the good domain; a domain that shares
+            # p and q with it (or differs in one member only) but is not a DSA domain must still be refused, or at least
+            # never yield a key that breaks the invariants (a validation cache keyed on part of the domain would)
+            p_, q_, g_ = [int(v) for v in self.domain]
+            bad = {"g=2": (p_, q_, 2), "g=1": (p_, q_, 1), "g=p-1": (p_, q_, p_ - 1), "g=2g": (p_, q_, (2 * g_) % p_), "g=0": (p_, q_, 0),
+                   "q=2q": (p_, 2 * q_, g_), "p=p+2q": (p_ + 2 * q_, q_, g_)}[case["then"]]
+            ctx.fault("history.bad_domain_after_good")
+            try:
+                k3 = DSA.generate(1024, randfunc=RecTape(case["seed"] + 1), domain=bad)
+            except ValueError:
+                ctx.probe("dsa_bad_domain_refused_after_good")
+            except Exception as e:
+                ctx.violate("generate/DSA/bad-domain/exception:%s" % type(e).__name__, "DSA.generate on a domain that is not a DSA domain (%s) "
+                            "raised %r instead of ValueError" % (case["then"], e), observed=repr(e), expected="ValueError")
+            else:
+                self._judge(ctx, "DSA.generate", K.check_dsa(k3), " (domain %s, right after a key generated in the good domain with the same other members)" % case["then"])
+                ctx.probe("dsa_bad_domain_accepted_after_good")
 
     def run_gen_elgamal(self, case, ctx):
         from Crypto.PublicKey import ElGamal
